@@ -7,7 +7,8 @@ EXTENDS Numscript, Json, Randomization, TLCExt, SequencesExt
 
 CONSTANTS Family,    \* which family of cases
           OutFile,   \* NDJSON output
-          SampleN    \* size of the random sample for the deep families
+          SampleN,   \* size of the random sample for the deep families
+          Half       \* 0: the whole family; 1 / 2 / 3: a third of it, by send amount (so that the parts run in parallel)
 
 VARIABLE c           \* the case: [sends, bal]
 
@@ -35,7 +36,7 @@ D2deep == {DSeq(<<c1>>, <<e1, e2>>) : c1 \in {1, 3}, e1, e2 \in KD1small}
           \cup {DSeq(<<c1, c2>>, <<e1, e2, e3>>) : c1, c2 \in {1, 3}, e1, e2, e3 \in KD1small}
           \cup {DAllot(ps, <<e1, e2>>) : ps \in {<<Por(1, 3), Remaining>>, <<Por(1, 2), Por(1, 2)>>}, e1, e2 \in KD1small}
 
-Amts == {-1, 0, 1, 3, 4, 7}
+Amts == CASE Half = 1 -> {-1, 0} [] Half = 2 -> {1, 3} [] Half = 3 -> {4, 7} [] OTHER -> {-1, 0, 1, 3, 4, 7}
 Bal(a, b) == [x \in {"a", "b", "x", "y", "world"} |-> IF x = "a" THEN a ELSE IF x = "b" THEN b ELSE 0]
 BalsWide == {Bal(a, b) : a \in {-1, 0, 2, 5}, b \in {0, 3}}
 BalsPos == {Bal(a, b) : a \in {2, 5}, b \in {0, 3}}
@@ -94,7 +95,8 @@ LawC03Amount ==
 \* K: a common multiple of every portion denominator of the standard families (2, 3, 4, 7); the case multiplied by K
 \* splits into portions without remainders, which lets the harness run it at K * 2^55 and compare (see nsconf)
 K == 84
-UsesK(cs) == Family \in {"src1", "src2", "dst1", "dst2"} /\ HasPorts(cs.sends)
+\* amounts 1, 3, 4: at K * 2^55 they still fit a machine word
+UsesK(cs) == Family \in {"src1", "src2", "dst1", "dst2"} /\ HasPorts(cs.sends) /\ cs.sends[1].amt \in {1, 3, 4}
 Emit == TLCGet("stats").generated >= 0 /\
         ndJsonSerialize(OutFile, SetToSeq({[sends |-> cs.sends, bal |-> cs.bal, exp |-> Out(cs),
                                             k |-> IF UsesK(cs) THEN K ELSE 0,
